@@ -4,7 +4,7 @@
    changed basin_type/basin_format of a basin class, a basin class loading a
    different dataset class, or a removed refusal in basins_retrieve makes
    [flags_as_modelled] stop compiling. *)
-From Coq Require Import List String Bool.
+From Coq Require Import ZArith List String Bool.
 From Verif Require Import Model.C14 Gen.BasinFlags.
 Import ListNotations.
 Open Scope string_scope.
@@ -53,11 +53,46 @@ Definition model_basin_classes : list (string * (string * string)) :=
   map (fun c => (class_name c, (type_name (class_type c), loads_name c)))
       [CDcor; CInternal; CHdf5; CHttp; CS3].
 
+(* does the model's basins_retrieve instantiate a basin of kind k whose
+   location exists, for a referrer that does / does not allow local basins *)
+Definition probe_world (k : kind) : world :=
+  [mkF None [] [0] []; mkFile None [] [] [] (match kclass k with
+                                              | CDcor => true | _ => false
+                                              end)].
+
+Definition model_instantiates (k : kind) (allowed : bool) : bool :=
+  let b := mkBasin 7 k (match ktype k with TInternal => 1 | _ => 0 end)
+                   [Here 1%nat] (Some [0%Z]) in
+  let fm := if allowed then FHdf5 else FHttp in
+  match fst (retrieve_one (probe_world k) fm 0 (mkF None [] [0] [b]) [7%Z] []
+                          b) with
+  | [] => false
+  | _ => true
+  end.
+
+Definition model_retrieve_matrix : list (string * (string * (bool * bool))) :=
+  map (fun k => (type_name (ktype k),
+                 (class_name (kclass k),
+                  (model_instantiates k true, model_instantiates k false))))
+      [KInternal; KFile; KHttp; KS3; KDcor; KRemoteHdf5; KInternalHdf5].
+
+(* an ignored key is skipped; a definition passes its own key down *)
+Definition model_cycle_guard : bool * bool :=
+  let b := mkBasin 7 KHttp 0 [Here 1%nat] None in
+  let f := mkF None [] [] [b] in
+  (match fst (retrieve_one (probe_world KHttp) FHdf5 0 f [7%Z] [7%Z] b) with
+   | [] => true | _ => false end,
+   match fst (retrieve (f :: tl (probe_world KHttp)) FHdf5 0 [5%Z]) with
+   | [rb] => match rb_ign rb with [7%Z; 5%Z] => true | _ => false end
+   | _ => false
+   end).
+
 Lemma flags_as_modelled :
   gen_local_allowed = model_local_allowed
   /\ gen_has_basin_dicts = model_has_basin_dicts
   /\ gen_basin_classes = model_basin_classes
-  /\ gen_retrieve_guard = (true, true, true).
+  /\ gen_retrieve_matrix = model_retrieve_matrix
+  /\ gen_cycle_guard = model_cycle_guard.
 Proof. vm_compute. repeat split; reflexivity. Qed.
 
 (* hence the functions of the model agree with the code's tables *)
